@@ -20,6 +20,10 @@ pub assume_specification [core::cmp::Ordering::is_ge] (o: Ordering) -> (r: bool)
     ensures r == !(o is Less);
 pub assume_specification [core::cmp::Ordering::is_le] (o: Ordering) -> (r: bool)
     ensures r == !(o is Greater);
+pub assume_specification [core::cmp::Ordering::is_gt] (o: Ordering) -> (r: bool)
+    ensures r == (o is Greater);
+pub assume_specification [core::cmp::Ordering::is_lt] (o: Ordering) -> (r: bool)
+    ensures r == (o is Less);
 
 pub proof fn lemma_b2i_mul(b: bool, p: int)
     ensures b2i(b) * p == if b { p } else { 0 },
